@@ -1,5 +1,6 @@
 import HpxVerif.Model.Topo
 import HpxVerif.Lemmas.TopoGen
+import HpxVerif.Lemmas.TopoComplete
 
 set_option autoImplicit false   -- an unknown identifier in a statement is an error, never a new variable
 
@@ -22,8 +23,12 @@ Proved for every input:
   (the latter since the repair of finding F20).
 Test (kernel evaluation, labelled as a test): for `n = 1, 2, 4` the neighbour lists are *exactly* the touching cells,
 with the labelling of the property (ordinal: the two vertices of that side; cardinal: that vertex only).
-Open statements: `neighbour_labelled`, `neighbours_complete` for every `n` (the correspondence check and the
-vertex-key oracle cover all 30 depths).
+**For every grid size `1 ≤ n ≤ 2^32`** (last section, at the level of parts `(d0h, i, j)`): `neighbourParts_valid`,
+`neighbour_labelled` (ordinal: exactly the two vertices of that side; cardinal: exactly that vertex), `neighbours_distinct`,
+`neighbour_ne_self`, `neighbourParts_none_iff` + `neighbours_count` (8, or 7 exactly at the 24 special cells; 6 at `n = 1`),
+`neighbours_complete` / `neighbours_exact` (a distinct valid cell is a neighbour iff it touches), `neighbours_symmetric`.
+The lifting to cell numbers (`decode_hash`/`build_hash`, the bit-level fast path of `inner_cell_neighbours`) is in
+progress; until then it is covered by the correspondence check and the vertex-key oracle at all 30 depths.
 -/
 
 namespace Hpx.C04
@@ -128,5 +133,94 @@ theorem compass_from_source :
     (∀ se sw : Fin 3, MW.ofOffsets ((se.val : Int) - 1) ((sw.val : Int) - 1) =
       (TopoGen.lk Gen.mwFromOffsets (3 * sw.val + se.val)).bind MW.ofIndex) :=
   ⟨TopoGen.mw_opposite, TopoGen.mw_offsets, TopoGen.mw_kinds, TopoGen.mw_from_offsets⟩
+
+/-! ## for EVERY grid size `1 ≤ n ≤ 2^32` (in particular every depth): neighbours = the touching cells, correctly labelled
+
+Vocabulary of `Lemmas/TopoSpec.lean` (written from the geometry, independent of the code's seam tables, executable):
+`Valid n p` (`d0h < 12`, `i, j < n`), `vertex n p v` (the four corners of the cell in the HEALPix plane scaled by `n`),
+`key` (identification of plane points that are the same point of the sphere: `x mod 8n` in the belt, the right end of a
+polar-cap segment glued to the left end of the next facet, `|y| = 2n` a single pole), `shared n p q` (the vertices of
+`p`, in order S E N W, that are also vertices of `q`), `Touch n p q` (they share at least one), `edgeOf dir` (the two
+vertices of a side / the one vertex of a corner / all four for `C`), `dirs8`, `count`, `Missing`, `Special`,
+`specialCells` (the 24 cells at the 8 three-cell points). -/
+
+section EveryGridSize
+open Hpx Hpx.Topo Hpx.TopoSpec Hpx.TopoNeigh MW
+
+/-- **C04, `neighbourParts_valid`**: a returned neighbour is a cell of the grid -/
+theorem neighbourParts_valid (n : Nat) (p q : HashParts) (dir : MW) (hn : 1 ≤ n) (hn2 : n ≤ 4294967296)
+    (hp : Valid n p) (h : neighbourParts n p dir = some q) : Valid n q :=
+  Hpx.TopoNeigh.neighbourParts_valid n p q dir hn hn2 hp h
+
+theorem neighbourParts_none_iff (n : Nat) (p : HashParts) (dir : MW) (hp : Valid n p) :
+    neighbourParts n p dir = none ↔ Missing n p dir :=
+  Hpx.TopoNeigh.neighbourParts_none_iff n p dir hp
+
+theorem neighbours_count (n : Nat) (p : HashParts) (hn : 2 ≤ n) (hp : Valid n p) :
+    count n p = if Special n p then 7 else 8 :=
+  Hpx.TopoNeigh.neighbours_count n p hn hp
+
+theorem neighbours_count_one (p : HashParts) (hp : Valid 1 p) : count 1 p = 6 :=
+  Hpx.TopoNeigh.neighbours_count_one p hp
+
+/-- the centre of the specification is `Layer.centerXY` (which reduces the abscissa to `[0, 8n)`) -/
+theorem spec_center_is_centerXY (d : Nat) (p : HashParts) (hb : p.d0h < 12) :
+    Layer.centerXY d p =
+      ((if (center (Layer.nside d) p).1 < 0 then (center (Layer.nside d) p).1 + 8 * (Layer.nside d : Int)
+        else (center (Layer.nside d) p).1), (center (Layer.nside d) p).2) :=
+  Hpx.TopoNeigh.centerXY_eq d p hb
+
+/-- the four vertices of a cell are four different points of the sphere (so "`p` and `q` share exactly the vertices
+    `shared n p q`" counts points of the sphere).  Holds for every `n ≥ 1`. -/
+theorem vertex_keys_distinct (n : Nat) (p : HashParts) (v w : MW) (hn : 1 ≤ n) (hp : Valid n p) (hv : v ∈ cardinals)
+    (hw : w ∈ cardinals) (e : TopoSpec.vkey n p v = TopoSpec.vkey n p w) : v = w :=
+  Hpx.TopoNeigh.vkey_injective n p v w hn hp hv hw e
+
+/-- **C04, `neighbour_labelled`**: the cell returned for direction `dir` shares with `p` exactly the vertices of the
+    side `dir` of `p` (two vertices, `dir` ordinal), exactly the corner `dir` of `p` (one vertex, `dir` cardinal); for
+    `dir = C` it is `p` itself (four vertices).  Holds for every `n ≥ 1`, including `n = 1` (depth 0). -/
+theorem neighbour_labelled (n : Nat) (p q : HashParts) (dir : MW) (hn : 1 ≤ n) (hn2 : n ≤ 4294967296)
+    (hp : Valid n p) (h : neighbourParts n p dir = some q) : shared n p q = edgeOf dir :=
+  Hpx.TopoNeigh.neighbour_labelled n p q dir hn hn2 hp h
+
+/-- **C04, `neighbours_distinct`**: two different directions (the centre included) never give the same cell; in
+    particular the (up to 8) neighbours are pairwise distinct.  Holds for every `n ≥ 1`. -/
+theorem neighbours_distinct (n : Nat) (p q : HashParts) (d1 d2 : MW) (hn : 1 ≤ n) (hn2 : n ≤ 4294967296)
+    (hp : Valid n p) (h1 : neighbourParts n p d1 = some q) (h2 : neighbourParts n p d2 = some q) : d1 = d2 :=
+  Hpx.TopoNeigh.neighbours_distinct n p q d1 d2 hn hn2 hp h1 h2
+
+/-- a neighbour (direction other than `C`) is never the cell itself.  Holds for every `n ≥ 1`. -/
+theorem neighbour_ne_self (n : Nat) (p q : HashParts) (dir : MW) (hn : 1 ≤ n) (hn2 : n ≤ 4294967296)
+    (hp : Valid n p) (hdir : dir ≠ C) (h : neighbourParts n p dir = some q) : q ≠ p :=
+  Hpx.TopoNeigh.neighbour_ne_self n p q dir hn hn2 hp hdir h
+
+/-- **C04, `neighbours_complete`**: every cell `q ≠ p` of the grid that has a vertex in common with `p` (as points of
+    the sphere) is the neighbour of `p` in one of the eight directions.  Holds for every `n ≥ 1`. -/
+theorem neighbours_complete (n : Nat) (p q : HashParts) (hn : 1 ≤ n) (hn2 : n ≤ 4294967296) (hp : Valid n p)
+    (hq : Valid n q) (hne : q ≠ p) (ht : Touch n p q) : ∃ dir ∈ dirs8, neighbourParts n p dir = some q :=
+  Hpx.TopoNeigh.neighbours_complete n p q hn hn2 hp hq hne ht
+
+/-- **C04, exact adjacency**: for two distinct cells of the grid, "`q` is a neighbour of `p` in one of the eight
+    directions" is exactly "`p` and `q` have a vertex in common on the sphere".  Holds for every `n ≥ 1`. -/
+theorem neighbours_exact (n : Nat) (p q : HashParts) (hn : 1 ≤ n) (hn2 : n ≤ 4294967296) (hp : Valid n p)
+    (hq : Valid n q) (hne : q ≠ p) : (∃ dir ∈ dirs8, neighbourParts n p dir = some q) ↔ Touch n p q :=
+  Hpx.TopoNeigh.neighbours_exact n p q hn hn2 hp hq hne
+
+/-- **C04, `neighbourParts_symmetric`**: if `q` is the neighbour of `p` in a direction other than `C`, then `p` is the
+    neighbour of `q` in one of the eight directions.  Holds for every `n ≥ 1`. -/
+theorem neighbours_symmetric (n : Nat) (p q : HashParts) (dir : MW) (hn : 1 ≤ n) (hn2 : n ≤ 4294967296)
+    (hp : Valid n p) (hdir : dir ≠ C) (h : neighbourParts n p dir = some q) :
+    ∃ dir' ∈ dirs8, neighbourParts n q dir' = some p :=
+  Hpx.TopoNeigh.neighbourParts_symmetric n p q dir hn hn2 hp hdir h
+
+theorem specialCells_length (n : Nat) : (specialCells n).length = 24 :=
+  Hpx.TopoNeigh.specialCells_length n
+
+theorem special_iff_mem (n : Nat) (p : HashParts) (hn : 1 ≤ n) (hp : Valid n p) :
+    Special n p ↔ p ∈ specialCells n :=
+  Hpx.TopoNeigh.special_iff_mem n p hn hp
+
+
+end EveryGridSize
 
 end Hpx.C04
